@@ -187,6 +187,24 @@ def native_connection(**attrs):
     return c
 
 
+def bounded_call(fn, *a, timeout=3.0, **kw):
+    """Run fn on a daemon thread and wait at most `timeout` s: clean-up steps and live scenarios of native harnesses must
+    never be able to hang the checker when the code under test spins or blocks (that is an OBSERVATION, not a crash).
+    Returns ('ok', value) | ('raise', exc) | ('hang', None)."""
+    import threading
+    box = []
+
+    def run():
+        try:
+            box.append(('ok', fn(*a, **kw)))
+        except BaseException as e:      # noqa
+            box.append(('raise', e))
+    t = threading.Thread(target=run, daemon=True)
+    t.start()
+    t.join(timeout)
+    return box[0] if box else ('hang', None)
+
+
 class ByIterable(object):
     """A loop contract attached by ROLE: it applies to whichever for loop iterates over an object accepted by `accepts`;
     any other loop that happens to carry the same key is executed normally."""
